@@ -13,15 +13,21 @@ git checkout -q -- hexital
 git apply $SRC/patch.diff || { echo "$ID: patch does not apply in worktree"; exit 9; }
 T=$(timeout 900 /venv/bin/python -m pytest -q -p no:cacheprovider 2>&1 | tail -1)
 PYTHONPATH=$WT timeout 300 /venv/bin/python seeded/$ID/demo.py >/dev/null 2>&1; D1=$?
+if [ "$SEEDED_MODE" = worktree ]; then
+  # second stream (while another campaign owns /repo): the check reads the patched scratch worktree through HEXITAL_REPO
+  CHK=$(cd $VROOT && HEXITAL_REPO=$WT timeout 3000 ./check $PROP 2>&1); RC=$?
+fi
 git checkout -q -- hexital
 PYTHONPATH=$WT timeout 300 /venv/bin/python seeded/$ID/demo.py >/dev/null 2>&1; D0=$?
 echo "$ID [$PROP] tests: $T | demo with patch exit=$D1 | demo without patch exit=$D0"
 mkdir -p $OUT/$ID
 cp $SRC/patch.diff $SRC/demo.py $SRC/meta.json $OUT/$ID/
 cd $VROOT
+if [ "$SEEDED_MODE" != worktree ]; then
 git -C /repo apply $OUT/$ID/patch.diff || { echo "$ID: patch does not apply to /repo"; exit 9; }
 CHK=$(timeout 3000 ./check $PROP 2>&1); RC=$?
 git -C /repo checkout -q -- .
+fi
 echo "$CHK" | grep -E "refuted obligation|bounded stand-in|VIOLATION|^$PROP:" | cut -c1-170 | head -3
 echo "$CHK" | grep -E "refuted obligation|bounded stand-in|model-replay|^$PROP:" | head -8 > $OUT/$ID/check.txt
 echo "$CHK" | grep -c "no-failing-input-found" | sed 's/^/VIOLATION lines ending no-failing-input-found: /' >> $OUT/$ID/check.txt
@@ -30,7 +36,7 @@ python3 - <<PY
 import json
 p='$OUT/$ID/meta.json'
 m=json.load(open(p))
-m['confirmed']={'tests_with_patch':'''$T''','demo_with_patch_exit':$D1,'demo_without_patch_exit':$D0,'ran':'tools/seeded.sh: pytest + demo.py in a scratch worktree, then ./check $PROP on /repo with the patch applied'}
+m['confirmed']={'tests_with_patch':'''$T''','demo_with_patch_exit':$D1,'demo_without_patch_exit':$D0,'ran':'tools/seeded.sh: pytest + demo.py in a scratch worktree, then ./check $PROP on ${SEEDED_MODE:-/repo} with the patch applied'}
 m['check_exit']=$RC
 m['check_lines']=[l.rstrip()[:300] for l in open('$OUT/$ID/check.txt')]
 json.dump(m,open(p,'w'),indent=1)
